@@ -410,6 +410,10 @@ Definition check_reply (h : hdr) (mode command : Z) (argb : body) (argec : Z)
         else check_that (copied && (hcmd oh =? want_cmd) &&
                          has_flag (hflg oh) root_PFlagError && (oerrno =? argec)) (VPropFail 7) in
       vjoin (vjoin (vjoin prop (check_that unchanged (if (mode =? 0) || (mode =? 3) then VPropFail 6 else VPropFail 7))) wired) corr
+  | Some _, None =>
+      (* nothing usable reached the endpoint (a panic, no packet, the request not bound to its
+         endpoint, or the recycled request object's next reply not carrying its new fields) *)
+      if (mode =? 0) || (mode =? 3) then VPropFail 6 else VPropFail 7
   | _, _ => VMismatch 11
   end.
 
